@@ -336,6 +336,12 @@ def plan(tier):
         DOCS = corpus.docs(5, (1000, "a", "b", 2000), ("a", "b"))
         terms = ("a", "1000", "b")
     DOCS = DOCS + corpus.collision_pack()
+    # a key and its other-type twin in one Hash: under a key-name search the
+    # plain and the inverted answer still partition the keys
+    DOCS = DOCS + [("m", ((1000, "x"), ("1000", "y"), ("a", "z"))),
+                   ("m", (("1000", "y"), (1000, "x"))),
+                   ("m", (("a", ("m", ((1000, "x"), ("1000", "y"),
+                                       ("b", "w")))),))]
     SEGS = [("search", attr, op, term, False) for attr in (".", "a")
             for op in paths.OPS for term in terms]
     step = max(1, len(DOCS) // (core.jobs() * 6))
